@@ -1218,6 +1218,16 @@ func adapterMethods(w *World) (getLatest, update string) {
 			}
 		}
 		names = uniqStrings(names)
+		if len(names) == 0 {
+			// the adapter lives elsewhere: the in-process implementation is the one that calls the witness's own methods
+			// (the HTTP client and cmd/feedbastion's bastion client implement the interface too, over the network)
+			for _, f := range w.implementations(m) {
+				if f.Synthetic == "" && w.isProd(f) && !strings.Contains(pkgPathOf(f), "/cmd/") && callsNamed(f, fnUpdate, fnGetCheckpoint) {
+					names = append(names, funcName(f))
+				}
+			}
+			names = uniqStrings(names)
+		}
 		if len(names) != 1 {
 			return ""
 		}
